@@ -56,8 +56,8 @@ pub struct Case {
 
 fn pattern() -> impl Strategy<Value = Pattern> {
 	(
-		(0usize..4, proptest::collection::vec(0u8..TYPES.len() as u8, 0..3), proptest::option::of(0u8..TYPES.len() as u8), proptest::collection::vec(prop_oneof![3 => Just(0u8), 2 => Just(1u8), 2 => Just(2u8), 1 => Just(3u8), 1 => Just(4u8), 2 => Just(5u8)], 3)),
-		(prop_oneof![3 => Just(0u8), 2 => Just(1u8), 2 => Just(2u8), 1 => Just(3u8), 2 => Just(5u8), 1 => Just(6u8)], prop_oneof![9 => Just(false), 1 => Just(true)], prop_oneof![5 => Just(true), 1 => Just(false)], any::<bool>(), prop_oneof![6 => Just(0u8), 1 => 1u8..4], prop_oneof![5 => Just(0u8), 1 => 1u8..5], any::<bool>(), prop_oneof![4 => Just(false), 1 => Just(true)]),
+		(prop_oneof![6 => 0usize..4, 1 => 4usize..6], proptest::collection::vec(0u8..TYPES.len() as u8, 0..3), proptest::option::of(0u8..TYPES.len() as u8), proptest::collection::vec(prop_oneof![3 => Just(0u8), 2 => Just(1u8), 2 => Just(2u8), 1 => Just(3u8), 1 => Just(4u8), 2 => Just(5u8)], 3)),
+		(prop_oneof![3 => Just(0u8), 2 => Just(1u8), 2 => Just(2u8), 1 => Just(3u8), 2 => Just(5u8), 1 => Just(6u8)], prop_oneof![9 => Just(false), 1 => Just(true)], prop_oneof![5 => Just(true), 1 => Just(false)], any::<bool>(), prop_oneof![6 => Just(0u8), 1 => 1u8..4], prop_oneof![5 => Just(0u8), 1 => 1u8..6], any::<bool>(), prop_oneof![4 => Just(false), 1 => Just(true)]),
 	)
 		.prop_map(|((class, params, ret, widen), (widen_ret, arity_change, synthetic, bridge_flag, blocker, body, same_name, share))| Pattern { class, params, ret, widen, widen_ret, arity_change, synthetic, bridge_flag, blocker, body, same_name, share })
 }
@@ -223,7 +223,7 @@ fn build(case: &Case) -> (Built, Inheritance) {
 		let mut refs: BTreeSet<MRef> = BTreeSet::new();
 		let deleg = MRef { class: owner.clone(), name: n_s.clone(), desc: d_s.clone() };
 		match p.body {
-			1 => {}
+			1 | 5 => {}
 			2 => {
 				insns.push(call(&n_s, &d_s, &owner));
 				insns.push(call(&n_s, &d_s, &owner));
@@ -253,7 +253,14 @@ fn build(case: &Case) -> (Built, Inheritance) {
 		if p.bridge_flag {
 			access |= 0x0040;
 		}
-		models[p.class].methods.push(CMember { access, name: n_b.clone(), desc: d_b.clone(), attrs: vec![Attr::Code(Code { max_stack: 4, max_locals: 8, insns, exceptions: vec![], attrs: vec![] })] });
+		// body 5: the synthetic method has no code at all (abstract): it calls nothing, whatever the method in front of it calls
+		if p.body == 5 {
+			access = (access & !0x0010 & !0x0008 & !0x0002) | 0x0400;
+			models[p.class].methods.push(CMember { access, name: n_b.clone(), desc: d_b.clone(), attrs: vec![] });
+			models[p.class].access |= 0x0400;
+		} else {
+			models[p.class].methods.push(CMember { access, name: n_b.clone(), desc: d_b.clone(), attrs: vec![Attr::Code(Code { max_stack: 4, max_locals: 8, insns, exceptions: vec![], attrs: vec![] })] });
+		}
 		candidates.push((MRef { class: cls, name: n_b, desc: d_b }, access, refs));
 	}
 	(Built { models, candidates }, inh)
